@@ -9,9 +9,9 @@ from core import MODEL_NAMES, model_class
 
 PLAYER_KINDS = ["int", "float", "bool", "None", "str", "tuple", "list", "dict", "object", "duck", "teamrating",
                 "class", "model", "function", "exception", "generator", "bytes", "frozenset_of_ratings", "range", "module", "nested_team"]
-TEAM_KINDS = ["tuple", "None", "int", "str", "dict", "bare_rating", "empty",
+TEAM_KINDS = ["tuple", "None", "int", "str", "dict", "bare_rating", "empty", "userlist",
               "deque", "namedtuple", "dict_values", "map", "str1", "bytes", "generator", "set"]
-TEAMS_KINDS = ["tuple", "dict", "frozenset", "str", "int", "None", "generator", "len0", "len1", "deque", "dict_values", "map"]
+TEAMS_KINDS = ["tuple", "dict", "frozenset", "str", "int", "None", "generator", "len0", "len1", "userlist", "deque", "dict_values", "map"]
 SEL_NONLIST = ["int", "float", "str", "tuple", "dict", "set", "bytes", "range", "True", "array", "deque", "generator", "map", "dict_values"]
 SEL_ELEM = ["str", "None", "list", "tuple", "dict", "object", "bytes", "class"]
 CALLS = ["rate", "win", "draw", "rank"]
@@ -207,6 +207,8 @@ def build_call(desc, model_name, teams):
             t = (x for x in t)
         elif kind == "deque":
             t = __import__("collections").deque(t)
+        elif kind == "userlist":
+            t = __import__("collections").UserList(t)
         elif kind == "dict_values":
             t = {i: x for i, x in enumerate(t)}.values()
         elif kind == "map":
@@ -240,6 +242,8 @@ def build_call(desc, model_name, teams):
             t[i] = []
         elif kind == "deque":
             t[i] = __import__("collections").deque(t[i])
+        elif kind == "userlist":
+            t[i] = __import__("collections").UserList(t[i])
         elif kind == "namedtuple":
             t[i] = __import__("collections").namedtuple("Team", ["p%d" % j for j in range(len(t[i]))])(*t[i])
         elif kind == "dict_values":
@@ -340,6 +344,9 @@ def wellformed_twins(n):
         ("scores_neg", {"scores": [-3 * i - 1 for i in idx]}),
         ("scores_mixed", {"scores": [(float(i) if i % 2 else i) for i in idx]}),
         ("scores_repeat", {"scores": [i // 2 for i in idx]}),
+        ("ranks_2pow1024", {"ranks": [2 ** 1024 + i for i in idx]}),
+        ("scores_10pow400_mixed", {"scores": [[10 ** 400, 3, 7.5][i % 3] + (i // 3) for i in idx]}),
+        ("ranks_negative_huge_int", {"ranks": [-(10 ** 320) * (i + 1) for i in idx]}),
         ("ranks_1e308", {"ranks": [1e308 - i * 1e292 for i in idx]}),
         ("ranks_17_digits", {"ranks": [0.12345678901234567 + i * 1.0000000000000002 for i in idx]}),
         ("ranks_true_and_one", {"ranks": [[True, 1, 2][i % 3] for i in idx]}),
